@@ -257,6 +257,10 @@ def ds_to_np(ds, dtype=np.int32):
 # ----------------------------------------------------------------------------------------
 # check context: collects cases, runs the model driver once, judges, writes evidence
 # ----------------------------------------------------------------------------------------
+class Hang(BaseException):
+    """raised by the watchdog alarm (BaseException: not swallowed by `except Exception` in harness code)"""
+
+
 class Ctx:
     def __init__(self, prop, tier, seed):
         self.prop = prop
@@ -274,13 +278,32 @@ class Ctx:
         self.notes = []
         self.impl_validated = 0
 
+    # --- watchdog: the harness calls the implementation in-process; a call that never returns must end as a
+    # verdict, not as a stalled check. Every count()/add()/fail() is a heartbeat that re-arms an alarm; if no
+    # heartbeat arrives for `watchdog` seconds check.py's SIGALRM handler raises Hang in the main thread: inside
+    # implementation frames that is a termination failure of the property's operation (spec), elsewhere the
+    # check is broken (exit 2).
+    watchdog = 0
+
+    def beat(self):
+        if self.watchdog:
+            import signal
+            signal.alarm(self.watchdog)
+
+    def no_watchdog(self):
+        import signal
+        self.watchdog = 0
+        signal.alarm(0)
+
     def count(self, key, k=1):
+        self.beat()
         self.hist[key] = self.hist.get(key, 0) + k
 
     def add(self, desc, requests, judge, nontrivial=True, key=None):
         """desc: JSON-able description of the case (op + inputs; is the replay).
         requests: list of (op, args) sent to the Lean driver.
         judge(answers: list[dict]) -> list of failure dicts {kind: 'spec'|'model', what: str, ...}"""
+        self.beat()
         cid = f"c{len(self.cases)}"
         self.cases.append((cid, desc, requests, judge))
         self.evaluations += 1
